@@ -370,7 +370,7 @@ Ltac frame_tac :=
 
 Ltac dm := match goal with
   | |- context [match ?x with _ => _ end] =>
-      lazymatch x with context [match _ with _ => _ end] => fail | _ => destruct x eqn:? end
+      lazymatch x with match _ with _ => _ end => fail | _ => destruct x eqn:? end
   end.
 
 Lemma one_msg_frame retries a m :
@@ -391,4 +391,51 @@ Proof.
   induction l as [|m r IH]; intros a; cbn [all_msgs]; [split; reflexivity|].
   pose proof (one_msg_frame retries a m) as F. destruct (one_msg retries a m) as [s|a1]; [exact F|].
   specialize (IH a1). destruct (all_msgs retries a1 r); destruct IH, F; split; congruence.
+Qed.
+
+(* ---------- what the content phase appends: at most one rewritten copy of the message ---------- *)
+Lemma part_lookup_out retries a c r pid name res a' r' :
+  part_lookup retries a c r pid name = (res, a', r') -> a_out a' = a_out a /\ a_fwd a' = a_fwd a /\ h_tgt (a_h a') = h_tgt (a_h a).
+Proof.
+  unfold part_lookup. destruct (alookup _ name); [intros H; injection H as _ <- _; repeat split|].
+  destruct (refresh retries (a_ans a) name _) as [[res0 rest] newmap].
+  destruct newmap; intros H; injection H as _ <- _; cbn; repeat split.
+Qed.
+
+Lemma append_out a r e : a_out (append a r e) = a_out a \/ a_out (append a r e) = (a_out a ++ [e])%list.
+Proof. unfold append. destruct (negb _); [right; reflexivity|]. destruct (a_fwd a); [left|right]; reflexivity. Qed.
+
+Definition grows_by (m : smsg) (before after : list emsg) : Prop :=
+  after = before \/ exists r pid, after = (before ++ [mk_emsg m r pid])%list /\ supported (m_kind m) = true.
+
+Lemma one_msg_out retries a m :
+  match one_msg retries a m with COk a' => grows_by m (a_out a) (a_out a') | CErr _ => True end.
+Proof.
+  unfold one_msg, grows_by.
+  repeat dm; try exact I; try (left; reflexivity);
+  repeat match goal with H : part_lookup _ _ _ _ _ _ = _ |- _ => apply part_lookup_out in H; destruct H as [? [? ?]] end;
+  cbn [a_out] in *.
+  all: match goal with
+  | |- context [append ?a ?r ?e] => destruct (append_out a r e) as [Ha|Ha]; rewrite Ha; cbn [a_out] in *
+  | _ => idtac
+  end.
+  all: try (left; congruence).
+  all: right; eexists; eexists; split; [match goal with |- (?x ++ _)%list = _ => replace x with (a_out a) by congruence end; reflexivity|reflexivity].
+Qed.
+
+Lemma grows_len m b a : grows_by m b a -> (List.length a <= S (List.length b))%nat /\ (Forall (fun e => e_kind e <> KTick) b -> Forall (fun e => e_kind e <> KTick) a).
+Proof.
+  intros [->|[r [pid [-> Hs]]]]; [split; [lia|auto]|]. rewrite app_length. cbn. split; [lia|]. intros F. apply Forall_app. split; [exact F|].
+  constructor; [|constructor]. cbn. destruct (m_kind m); cbn in Hs; congruence.
+Qed.
+
+Lemma all_msgs_out retries : forall l a,
+  match all_msgs retries a l with
+  | COk a' => (List.length (a_out a') <= List.length (a_out a) + List.length l)%nat
+              /\ (Forall (fun e => e_kind e <> KTick) (a_out a) -> Forall (fun e => e_kind e <> KTick) (a_out a'))
+  | CErr _ => True end.
+Proof.
+  induction l as [|m r IH]; intros a; cbn [all_msgs]; [split; [cbn; lia|auto]|].
+  pose proof (one_msg_out retries a m) as F. destruct (one_msg retries a m) as [s|a1]; [exact I|].
+  specialize (IH a1). destruct (all_msgs retries a1 r); [exact I|]. apply grows_len in F. destruct F as [F1 F2], IH as [I1 I2]. cbn [List.length]. split; [lia|auto].
 Qed.
